@@ -28,6 +28,8 @@ func init() {
 			{Name: "identifier-zero-means-none", File: "routingtable/adjRIBIn/adj_rib_in.go", Old: "\t\tif a.sessionAttrs.AddPathRX {\n\t\t\tif p != nil && path.BGPPath.PathIdentifier != p.BGPPath.PathIdentifier {", New: "\t\tif a.sessionAttrs.AddPathRX && p != nil && p.BGPPath.PathIdentifier != 0 {\n\t\t\tif p != nil && path.BGPPath.PathIdentifier != p.BGPPath.PathIdentifier {", Expect: "path-identifier-is-opaque"},
 			{Name: "source-compared-with-itself", File: "route/bgp_path.go", Old: "\tif b.Source.Compare(c.Source) != 0 {", New: "\tif b.Source.Compare(b.Source) != 0 {", Expect: "withdrawal-matches-own-path"},
 			{Name: "withdraw-sends-stored-path", File: "routingtable/adjRIBIn/adj_rib_in.go", Old: "\t\tpath, reject := a.exportFilterChain.Process(pfx, path)\n\t\tif reject {\n\t\t\tcontinue\n\t\t}\n\t\tfor _, client := range a.clientManager.Clients() {\n\t\t\tclient.RemovePath(pfx, path)", New: "\t\t_, reject := a.exportFilterChain.Process(pfx, path)\n\t\tif reject {\n\t\t\tcontinue\n\t\t}\n\t\tfor _, client := range a.clientManager.Clients() {\n\t\t\tclient.RemovePath(pfx, path)", Expect: "post-policy-paths-only"},
+			{Name: "copy-stored-verdict-on-the-original", File: "routingtable/adjRIBIn/adj_rib_in.go", Old: "\t\ta.rt.AddPath(pfx, p)\n\t} else {", New: "\t\ta.rt.AddPath(pfx, p.Copy())\n\t} else {", Expect: "stored-object-carries-the-verdict"},
+			{Name: "unregister-withdraws-from-everybody", File: "routingtable/adjRIBIn/adj_rib_in.go", Old: "\t\t\tclient.RemovePath(r.Prefix(), p)\n\t\t}\n\t}\n}\n\n// RefreshRoute", New: "\t\t\tclient.RemovePath(r.Prefix(), p)\n\t\t}\n\t\ta.removePathsFromClients(r.Prefix(), r.Paths())\n\t}\n}\n\n// RefreshRoute", Expect: "unregister-withdraws"},
 			{Name: "replaced-path-withdrawn-after-bailout", File: "routingtable/adjRIBIn/adj_rib_in.go", Old: "\ta.removePathsFromClients(pfx, oldPaths)\n\n\t// Bail out if this path is considered ineligible\n\tp.HiddenReason = a.validatePath(p)\n\tif p.HiddenReason != route.HiddenReasonNone {\n\t\treturn nil\n\t}\n", New: "\t// Bail out if this path is considered ineligible\n\tp.HiddenReason = a.validatePath(p)\n\tif p.HiddenReason != route.HiddenReasonNone {\n\t\treturn nil\n\t}\n\ta.removePathsFromClients(pfx, oldPaths)\n", Expect: "replaced-paths-withdrawn"},
 		},
 	})
@@ -153,6 +155,7 @@ func runC05(c *core.Ctx) {
 		if len(rets) > 0 {
 			at = rets[0].Pos()
 		}
+		storedObjectCarriesTheVerdict(c, f)
 		c.Check(len(rets) == 0 && !end, "replaced-paths-withdrawn", f.Name()+" every exit passes removePathsFromClients", at,
 			"an exit of addPath is reachable without withdrawing the paths the announcement replaced (e.g. the ineligible-path bail-out comes first): the replaced path stays in the Loc-RIB although the Adj-RIB-In no longer holds it")
 		// the withdrawn list is what the table operation handed back
@@ -284,6 +287,23 @@ func runC05(c *core.Ctx) {
 		rpc := p.Func(adjIn + ".(*AdjRIBIn).removePathsFromClients")
 		viaHelper := len(core.Calls(f.Pkg, f.Decl.Body, func(o *types.Func) bool { return rpc != nil && o == rpc.Obj })) > 0
 		c.Check(n > 0 || viaHelper, "unregister-withdraws", f.Name()+" withdraws the client's paths", f.Decl.Pos(), "Unregister no longer withdraws the stored paths from the client that leaves")
+		// … from that client only: the withdrawals go to the parameter, and nothing Unregister calls walks the client list
+		leaving := core.ParamObj(f, 0)
+		only := ""
+		for _, call := range clientCalls(f, "RemovePath", "AddPath", "ReplacePath", "AddPathInitialDump") {
+			if core.ObjOf(f.Pkg, call.Fun.(*ast.SelectorExpr).X) != leaving {
+				only = "a notification in Unregister goes to a client other than the one that leaves"
+			}
+		}
+		for _, g := range p.ReachableFns(f) {
+			if g == f || g.Pkg != f.Pkg {
+				continue
+			}
+			if len(clientCalls(g, "RemovePath", "AddPath", "ReplacePath", "AddPathInitialDump")) > 0 {
+				only = "Unregister reaches " + g.Name() + ", which notifies every registered client: the clients that stay lose the paths although the Adj-RIB-In still holds them"
+			}
+		}
+		c.Check(only == "", "unregister-withdraws", f.Name()+" withdraws from the leaving client only", f.Decl.Pos(), only)
 	}
 }
 
@@ -373,4 +393,41 @@ func flushRemovesEveryPath(c *core.Ctx) {
 		pos = calls[0].Pos()
 	}
 	c.Check(ok, rule, f.Name()+" removes every stored path of every route", pos, why+": on an add-path session the paths with other identifiers stay in the Adj-RIB-In and in the Loc-RIB after the session ended")
+}
+
+// storedObjectCarriesTheVerdict: the verdict "was this path announced" (HiddenReason) is written once, in addPath, and read back from
+// the STORED object by every later withdrawal. The object addPath hands to the table must therefore be the very object it writes the
+// verdict to afterwards: storing a copy leaves the stored object with the sender's verdict (none), and the withdrawal of a path that
+// was never announced is sent to the clients (or, the other way round, an announced path is never withdrawn).
+func storedObjectCarriesTheVerdict(c *core.Ctx, f *core.Fn) {
+	const rule = "stored-object-carries-the-verdict"
+	hidden := c.P.Field("route", "Path", "HiddenReason")
+	var verdictOn []types.Object
+	ast.Inspect(f.Decl.Body, func(n ast.Node) bool {
+		as, ok := n.(*ast.AssignStmt)
+		if !ok || len(as.Lhs) != 1 || len(as.Rhs) != 1 {
+			return true
+		}
+		sel, ok := core.Unparen(as.Lhs[0]).(*ast.SelectorExpr)
+		if !ok || core.FieldOf(f.Pkg, sel) != hidden {
+			return true
+		}
+		if call, isCall := core.Unparen(as.Rhs[0]).(*ast.CallExpr); isCall && core.FuncKey(core.Callee(f.Pkg, call)) == adjIn+".(*AdjRIBIn).validatePath" {
+			verdictOn = append(verdictOn, core.ObjOf(f.Pkg, sel.X))
+		}
+		return true
+	})
+	c.Check(len(verdictOn) == 1 && verdictOn[0] != nil, rule, f.Name()+" writes the validation verdict to one named path object", f.Decl.Pos(), "the store HiddenReason = validatePath(…) was not found exactly once on a named object")
+	if len(verdictOn) != 1 || verdictOn[0] == nil {
+		return
+	}
+	n := 0
+	for _, call := range core.Calls(f.Pkg, f.Decl.Body, core.KeyIs("routingtable.(*RoutingTable).AddPath", "routingtable.(*RoutingTable).ReplacePath")) {
+		n++
+		id, isId := core.Unparen(call.Args[1]).(*ast.Ident)
+		c.Check(isId && core.ObjOf(f.Pkg, id) == verdictOn[0], rule, fmt.Sprintf("%s table store #%d stores the object the verdict is written to", f.Name(), n), call.Pos(),
+			"the object put into the Adj-RIB-In table is not the object HiddenReason is written to afterwards (e.g. a copy): the stored path keeps the sender's verdict, so its later withdrawal is sent for a path that was never announced, or skipped for one that was")
+	}
+	// and the object is not re-bound between the store and the verdict
+	c.Check(n >= 2, rule, f.Name()+" table stores found", f.Decl.Pos(), "expected the add-path and the replace store")
 }
